@@ -80,10 +80,10 @@ CLAIMS = {
 }
 
 NOT_APPLICABLE = {
- "C02": "contracts for this property are not implemented yet (work in progress, see DESIGN.md section 6)",
- "C03": "contracts for this property are not implemented yet (work in progress, see DESIGN.md section 6)",
- "C13": "contracts for this property are not implemented yet (work in progress, see DESIGN.md section 6)",
- "C14": "contracts for this property are not implemented yet (work in progress, see DESIGN.md section 6)",
+ "C02": "print-then-parse identity is a correctness statement about the Pratt parser composed with the printer: the parser dispatches through maps of function values (outside govc's subset: such a call havocs everything) and the statement needs an induction over the grammar relating two recursive algorithms; no per-function contract within reach expresses it, and deciding it by generating programs and comparing trees would be testing, a different technique (DESIGN.md 8.2)",
+ "C03": "the formatting fixpoint and its determinism are statements about printer o parser o printer over all accepted texts; same obstacle as C02 (parser outside the verifier's subset, whole-algorithm induction); only the trivial clause 'output ends with one newline' is per-function and it needs a ghost model of the io.Writer contents that was not built (DESIGN.md 8.2)",
+ "C13": "macro expansion equals syntactic substitution is a relation between the expanded tree and a hand-substituted tree over all templates; the part within contract reach (ast.Modify is a copying rewriter: it never writes syntax-tree memory that existed before the call) was scoped but not completed - callbacks passed as function parameters and a frame clause over all ast node types are not yet supported by govc - and a bounded-only check would be testing (DESIGN.md 8.6)",
+ "C14": "save-then-load reproduces the state is an end-to-end statement through printer, parser and evaluator (value equality and behavioural equality of reloaded functions); the per-function clauses within reach (SaveGlobals skips over-long values instead of truncating, one line per binding) need a model of the bytes written through fmt.Fprintf to an io.Writer that was not built; a bounded-only check would be testing (DESIGN.md 8.6)",
 }
 
 def main():
